@@ -165,6 +165,9 @@ StepEval(m) ==
              m2 == NewFrame([m EXCEPT !.res = Append(m.res, TRUE)], m.env, <<[n |-> n.var, v |-> [k |-> "res", id |-> r]]>>) IN
          Body(Push(m2, [k |-> "res", id |-> r]), n.body, Top(m2))
     [] n.k = "held" -> Ev(Push(m, [k |-> "held"]), n.e, m.env)
+    \* (close stream) inside the body: the stream is closed from then on; leaving the with-open-file form afterwards, in
+    \* whatever way, is what it would have been (the value, the exit or the condition are the body's)
+    [] n.k = "closeres" -> Ev(Push(m, [k |-> "closeres"]), n.e, m.env)
     [] n.k \in {"add", "sub", "lt", "eq", "cons", "trunc"} -> Ev(Push(m, [k |-> "bin1", op |-> n.k, b |-> n.b, env |-> m.env]), n.a, m.env)
     [] n.k \in {"car", "cdr"} -> Ev(Push(m, [k |-> "un", op |-> n.k]), n.a, m.env)
     [] n.k \in {"list", "values"} -> IF Len(n.es) = 0 THEN (IF n.k = "list" THEN Ret(m, Nil) ELSE RetVs(m, <<>>))
@@ -287,6 +290,7 @@ StepRet(m) ==
                              ELSE Body(Push([m1 EXCEPT !.res[v.id] = TRUE], [k |-> "res", id |-> v.id]), fr.body, fr.env)
     [] fr.k = "res" -> RetVs([m1 EXCEPT !.res[fr.id] = FALSE], m.val)          \* released on the normal path
     [] fr.k = "held" -> Ret(m1, IF v.k = "res" THEN Bool(m.res[v.id]) ELSE Nil)
+    [] fr.k = "closeres" -> IF v.k = "res" THEN Ret([m1 EXCEPT !.res[v.id] = FALSE], Bool(TRUE)) ELSE Err(m1, "type-error")
     [] fr.k = "mark" -> Ret([m1 EXCEPT !.out = Append(m.out, [id |-> fr.id, v |-> v])], v)
     [] fr.k \in {"block", "fnbody", "ignerr"} -> RetVs(m1, m.val)
     [] fr.k = "retfrom" -> LET tgt == LexId(m, fr.env, "#b:" \o fr.name) IN
